@@ -1,2 +1,3 @@
 //! Independent f64 reference models.
+pub mod nuts;
 pub mod stats;
